@@ -24,7 +24,7 @@ example : ∃ sol, colSU envUnc stUnc true none (fun _ => 1) 1 = .ok sol ∧
     sol.map (fun x => (x.d, x.v, x.a)) = [(4, 3, 1), (2, 4, 3), (2, 4, 3)] ∧
     ∀ r, r < 3 →
       ((List.range 3).map fun c =>
-        partStiff envUnc.i 1 envUnc.M envUnc.B envUnc.K lay.rb lay.el lay.rf r c *
+        partStiff envUnc.i 1 envUnc.M envUnc.rbDamping envUnc.B envUnc.K lay.rb lay.el lay.rf r c *
           (rowOf sol c).d).sum = (fun _ => 1) r ∧
       (rowOf sol r).v = envUnc.i * 1 * (rowOf sol r).d ∧
       (rowOf sol r).a = -(1 * 1) * (rowOf sol r).d := by
@@ -39,14 +39,61 @@ example : ∃ sol, colSU envUnc stUnc true none (fun _ => 1) 1 = .ok sol ∧
     exact colSU_solves envUnc (fun x => by simp [envUnc]) lay (by decide) (by decide) (by decide) true
       (fun _ => rfl) stUnc (by decide) none (fun _ => 1) 1 one_ne_zero (by decide) rfl rfl
       (fun h => by cases h)
-      (fun _ => ⟨fun r c hne => by simp [envUnc, hne], by decide, by decide, by decide⟩)
+      (fun _ => ⟨fun r c hne => by simp [envUnc, hne], by decide, by decide, by decide, by decide⟩)
       (fun h => by cases h) sol h
+
+/-- `SolveUnc`, uncoupled with a **damped rigid-body mode** (`envUncD`), on the real path
+(`b[_rb]`, `invm[_rb]`) and on the complex-coefficient path (`brb`, `imrb` after `get_su_eig`): the
+rigid-body row is `d = f / (−Ω² m + iΩ b) = 1`, `v = iΩ d = 2`, `a = −Ω² d = 4` — not the undamped
+`(4, 3, 1)` of the previous example — and the column satisfies the full-size equation whose
+rigid-body block carries the damping. -/
+example : ∀ uncReal : Bool, ∃ sol,
+    colSU envUncD (if uncReal then stUnc else stCoup) uncReal none (fun _ => 1) 1 = .ok sol ∧
+    sol.map (fun x => (x.d, x.v, x.a)) = [(1, 2, 4), (2, 4, 3), (2, 4, 3)] ∧
+    ∀ r, r < 3 →
+      ((List.range 3).map fun c =>
+        partStiff envUncD.i 1 envUncD.M envUncD.rbDamping envUncD.B envUncD.K lay.rb lay.el lay.rf r c *
+          (rowOf sol c).d).sum = (fun _ => 1) r ∧
+      (rowOf sol r).v = envUncD.i * 1 * (rowOf sol r).d ∧
+      (rowOf sol r).a = -(1 * 1) * (rowOf sol r).d := by
+  intro uncReal
+  have hz : ∀ x, envUncD.isZero x = true ↔ x = 0 := fun x => by simp [envUncD, envUnc]
+  have hunc : envUncD.unc = true → (∀ r c, r ≠ c → envUncD.M r c = 0 ∧ envUncD.B r c = 0 ∧ envUncD.K r c = 0) ∧
+      (∀ r ∈ lay.rf, envUncD.K r r ≠ 0) ∧ (∀ r ∈ lay.rb, envUncD.M r r ≠ 0) ∧
+      (∀ r ∈ lay.rb, -((1 : ZMod 5) * 1) * envUncD.M r r + envUncD.i * 1 * envUncD.B r r ≠ 0) ∧
+      ∀ r ∈ lay.el, envUncD.i * (envUncD.B r r * 1) + envUncD.K r r - envUncD.M r r * (1 * 1) ≠ 0 :=
+    fun _ => ⟨fun r c hne => by simp [envUncD, envUnc, hne], by decide, by decide, by decide, by decide⟩
+  cases uncReal with
+  | true =>
+    have hres : (match colSU envUncD stUnc true none (fun _ => 1) 1 with
+        | .ok sol => sol.map fun x => (x.d, x.v, x.a)
+        | .error _ => []) = [(1, 2, 4), (2, 4, 3), (2, 4, 3)] := by decide +kernel
+    cases h : colSU envUncD stUnc true none (fun _ => 1) 1 with
+    | error m => rw [h] at hres; cases hres
+    | ok sol =>
+      rw [h] at hres
+      refine ⟨sol, h, hres, ?_⟩
+      exact colSU_solves envUncD hz lay (by decide) (by decide) (by decide) true
+        (fun _ => rfl) stUnc (by decide) none (fun _ => 1) 1 one_ne_zero (by decide) rfl rfl
+        (fun h => by cases h) hunc (fun h => by cases h) sol h
+  | false =>
+    have hres : (match colSU envUncD stCoup false none (fun _ => 1) 1 with
+        | .ok sol => sol.map fun x => (x.d, x.v, x.a)
+        | .error _ => []) = [(1, 2, 4), (2, 4, 3), (2, 4, 3)] := by decide +kernel
+    cases h : colSU envUncD stCoup false none (fun _ => 1) 1 with
+    | error m => rw [h] at hres; cases hres
+    | ok sol =>
+      rw [h] at hres
+      refine ⟨sol, h, hres, ?_⟩
+      exact colSU_solves envUncD hz lay (by decide) (by decide) (by decide) false
+        (fun h => by cases h) stCoup (by decide) none (fun _ => 1) 1 one_ne_zero (by decide) rfl rfl
+        (fun h => by cases h) hunc (fun h => by cases h) sol h
 
 /-- `SolveUnc`, `get_su_eig` path: LU solves for rf and rb (`imrb`), complex modes for el -/
 example : ∃ sol, colSU envCoup stCoup false (some eig) (fun _ => 1) 2 = .ok sol ∧
     ∀ r, r < 3 →
       ((List.range 3).map fun c =>
-        partStiff envCoup.i 2 envCoup.M envCoup.B envCoup.K lay.rb lay.el lay.rf r c *
+        partStiff envCoup.i 2 envCoup.M envCoup.rbDamping envCoup.B envCoup.K lay.rb lay.el lay.rf r c *
           (rowOf sol c).d).sum = (fun _ => 1) r ∧
       (rowOf sol r).v = envCoup.i * 2 * (rowOf sol r).d ∧
       (rowOf sol r).a = -(2 * 2) * (rowOf sol r).d := by
@@ -68,14 +115,14 @@ example : ∃ sol, colSU envCoup stCoup false (some eig) (fun _ => 1) 2 = .ok so
 example : (∃ sol, colFD envUnc lay (fun _ => 1) 1 = .ok sol ∧
       ∀ r, r < 3 →
         ((List.range 3).map fun c =>
-          partStiff envUnc.i 1 envUnc.M envUnc.B envUnc.K [] lay.nonrf lay.rf r c *
+          partStiff envUnc.i 1 envUnc.M envUnc.B envUnc.B envUnc.K [] lay.nonrf lay.rf r c *
             (rowOf sol c).d).sum = (fun _ => 1) r ∧
         (rowOf sol r).v = envUnc.i * 1 * (rowOf sol r).d ∧
         (rowOf sol r).a = -(1 * 1) * (rowOf sol r).d) ∧
     (∃ sol, colFD envCoup lay (fun _ => 1) 2 = .ok sol ∧
       ∀ r, r < 3 →
         ((List.range 3).map fun c =>
-          partStiff envCoup.i 2 envCoup.M envCoup.B envCoup.K [] lay.nonrf lay.rf r c *
+          partStiff envCoup.i 2 envCoup.M envCoup.B envCoup.B envCoup.K [] lay.nonrf lay.rf r c *
             (rowOf sol c).d).sum = (fun _ => 1) r ∧
         (rowOf sol r).v = envCoup.i * 2 * (rowOf sol r).d ∧
         (rowOf sol r).a = -(2 * 2) * (rowOf sol r).d) := by
